@@ -25,8 +25,8 @@ Ascii == WordChars \cup AsciiOther
 Ch(s, i) == SubSeq(s, i, i)
 RECURSIVE MapFrom(_, _, _)
 MapFrom(s, i, m) == IF i > Len(s) THEN "" ELSE (IF Ch(s, i) \in DOMAIN m THEN m[Ch(s, i)] ELSE Ch(s, i)) \o MapFrom(s, i + 1, m)
-Upper(s) == MapFrom(s, 1, UpMap)
-Lower(s) == MapFrom(s, 1, LoMap)
+Upper(s) == IF \A i \in 1..Len(s) : Ch(s, i) \notin DOMAIN UpMap THEN s ELSE MapFrom(s, 1, UpMap)
+Lower(s) == IF \A i \in 1..Len(s) : Ch(s, i) \notin DOMAIN LoMap THEN s ELSE MapFrom(s, 1, LoMap)
 IsAscii(s) == \A i \in 1..Len(s) : Ch(s, i) \in Ascii
 IsWord(s) == Len(s) > 0 /\ \A i \in 1..Len(s) : Ch(s, i) \in WordChars
 AllDigits(s) == Len(s) > 0 /\ \A i \in 1..Len(s) : Ch(s, i) \in DOMAIN DigitMap
@@ -80,17 +80,18 @@ Lex(reg, s) ==
 (* a table is a sequence of <<value, NAME>>; the first entry of a value is its canonical name,
    later ones are aliases.  "-" and "_" are the same character in a mnemonic (NSAP-PTR is the
    Python identifier NSAP_PTR; both are read). *)
-Dash(s) == MapFrom(s, 1, [c \in {"_"} |-> "-"])
+Dash(s) == IF \A i \in 1..Len(s) : Ch(s, i) # "_" THEN s ELSE MapFrom(s, 1, [c \in {"_"} |-> "-"])
 HasValue(tab, v) == \E k \in 1..Len(tab) : tab[k][1] = v
-HasName(tab, W) == \E k \in 1..Len(tab) : tab[k][2] = Dash(W)
+HasName(tab, W) == LET d == Dash(W) IN \E k \in 1..Len(tab) : tab[k][2] = d
 CanonName(tab, v) == tab[CHOOSE k \in 1..Len(tab) : tab[k][1] = v /\ \A j \in 1..(k - 1) : tab[j][1] # v][2]
-ValueOf(tab, W) == tab[CHOOSE k \in 1..Len(tab) : tab[k][2] = Dash(W)][1]
+ValueOf(tab, W) == LET d == Dash(W) IN tab[CHOOSE k \in 1..Len(tab) : tab[k][2] = d][1]
 
 ToText(reg, tab, v) == IF HasValue(tab, v) THEN CanonName(tab, v) ELSE Generic(reg, v)
 (* <<"ok", v>> | <<"err", kind>> *)
 FromText(reg, tab, s) ==
     LET x == Lex(reg, s)
-    IN  IF x[1] \in {"word", "generic"} /\ HasName(tab, Upper(s)) THEN <<"ok", ValueOf(tab, Upper(s))>>
+        u == Upper(s)
+    IN  IF x[1] \in {"word", "generic"} /\ HasName(tab, u) THEN <<"ok", ValueOf(tab, u)>>
         ELSE IF x[1] = "generic" THEN <<"ok", x[2]>>
         ELSE IF x[1] = "toobig" THEN <<"err", "range">>
         ELSE <<"err", "unknown">>
